@@ -2,7 +2,9 @@
 """Runs a SEQUENCE of `pytask.build` calls on one generated C07 project inside ONE interpreter (state that pytask keeps in the
 process survives from build to build), with edits of input files between the builds.
 
-stdin: {"root": str, "steps": [["build"] | ["pickle", file, value] | ["text", file, value]]}
+stdin: {"root": str, "steps": [["build"[, {build kwargs}]] | ["pickle", file, value] | ["text", file, value] | ["rm", file]], "objects": bool}
+With "objects" the builds do not collect task modules: the task functions / PTask OBJECTS created ONCE by `c07objs.make()` are handed
+to every build as `tasks=[…]` (notebook style: the same node and task objects live through all builds of the process).
 stdout (last line): JSON list, one entry per build: {"reports": [[task, outcome, exc]…], "logs": {task: {param: canonical text}}, "raised": …}
 """
 import json
@@ -23,16 +25,23 @@ def main():
     os.chdir(root)
     sys.path.insert(0, str(root))
     import pytask
+    objs = None
+    if job.get("objects"):
+        import c07objs
+        objs = c07objs.make()
     builds = []
     for step in job["steps"]:
         if step[0] == "pickle":
             (root / step[1]).write_bytes(pickle.dumps(step[2]))
         elif step[0] == "text":
             (root / step[1]).write_text(step[2])
+        elif step[0] == "rm":
+            (root / step[1]).unlink()
         elif step[0] == "build":
             res = {"raised": None, "reports": [], "logs": {}}
+            kw = dict(step[1]) if len(step) > 1 else {}
             try:
-                session = pytask.build(paths=[str(root)])
+                session = pytask.build(tasks=objs, **kw) if objs is not None else pytask.build(paths=[str(root)], **kw)
                 res["exit"] = int(session.exit_code)
                 for r in getattr(session, "execution_reports", []):
                     t = r.task
